@@ -65,7 +65,7 @@ _MY_UPPER = [k.upper() for k in MY_KEYS]
 _EXTRA_SRC = None
 _EXTRA = []          # keys present in the repository list but not in MY_KEYS (DONT-CARE zone)
 
-MTYPES = ['dict', 'odict', 'ddict', 'proxy', 'proxyc', 'custom', 'chain']
+MTYPES = ['dict', 'odict', 'ddict', 'proxy', 'proxyc', 'custom', 'chain', 'lazy']
 SECRETS = [None, '***', '???', '', 'XXXX', '<redacted>', '*', 'hidden', 'secret=1', 'päss✓',
            'password']
 
@@ -91,6 +91,25 @@ class PairsMapping(collections.abc.Mapping):
 
     def __repr__(self):
         return 'PairsMapping(%r)' % (self._pairs,)
+
+
+class LazyMapping(PairsMapping):
+    """A read-only view that builds its nested mappings on access: every lookup of a mapping-valued key
+    returns a fresh, short-lived object (so object addresses get reused within one call)."""
+    __slots__ = ()
+
+    def __getitem__(self, key):
+        v = PairsMapping.__getitem__(self, key)
+        if isinstance(v, LazyMapping):
+            return LazyMapping(v._pairs)
+        if isinstance(v, PairsMapping):
+            return PairsMapping(v._pairs)
+        if type(v) is dict:
+            return dict(v)
+        return v
+
+    def __repr__(self):
+        return 'LazyMapping(%r)' % (self._pairs,)
 
 
 class MyStr(str):
@@ -185,6 +204,8 @@ class Builder:
                 return types.MappingProxyType(base)
             if m == 'custom':
                 return PairsMapping(base.items())
+            if m == 'lazy':
+                return LazyMapping(base.items())
             if m == 'proxyc':
                 inner = PairsMapping(base.items())
                 self.inner.append(inner)
@@ -200,6 +221,9 @@ def snap(o, ids, seen=None):
     """Frozen structural description; with ids=True it also pins the identity of
     every object reachable from o (containers and leaves)."""
     i = id(o) if ids else 0
+    if isinstance(o, LazyMapping):
+        # look at what the view stores, not at the fresh children it hands out
+        return ('M', type(o).__name__, i, tuple((snap(k, ids), snap(v, ids)) for k, v in o._pairs))
     if isinstance(o, collections.abc.Mapping):
         return ('M', type(o).__name__, i,
                 tuple((snap(k, ids), snap(v, ids)) for k, v in o.items()))
@@ -215,7 +239,7 @@ def snap(o, ids, seen=None):
 def container_ids(o, acc):
     if isinstance(o, collections.abc.Mapping):
         acc.add(id(o))
-        for k, v in o.items():
+        for k, v in (o._pairs if isinstance(o, LazyMapping) else o.items()):
             container_ids(v, acc)
     elif isinstance(o, (list, tuple)):
         acc.add(id(o))
